@@ -6,6 +6,7 @@ from .registers import RiscvRegister
 from .tokens import RiscvToken, RiscvcToken
 from .rvc_relocations import BcImm11Relocation, BcImm8Relocation
 from .rvc_relocations import CBImm11Relocation, CBlImm11Relocation
+from .relocations import BImm20Relocation
 from ..generic_instructions import ArtificialInstruction
 from .instructions import Andr, Orr, Xorr, Subr, Addi, Slli, Srli
 from .instructions import Lw, Sw, Blt, Bgt, Bge, Beq, Bne, Ble, Blr
@@ -170,7 +171,11 @@ class CBl(RiscvInstruction):
         return tokens[0].encode()
 
     def relocations(self):
-        return [CBlImm11Relocation(self.target)]
+        if self.rd.num == 1:
+            return [CBlImm11Relocation(self.target)]
+        # The short form (c.jal) always links x1, so a jal with another
+        # link register cannot be relaxed.
+        return [BImm20Relocation(self.target)]
 
 
 class CJal(RiscvcInstruction):
